@@ -7,8 +7,8 @@ P = 'C14'
 T = 'tag:yaml.org,2002:'
 ENCODED = ['SafeConstructor.flatten_mapping', 'SafeConstructor.construct_mapping', 'BaseConstructor.construct_mapping / construct_pairs',
            'SafeConstructor.construct_yaml_map / set / omap / pairs', 'BaseConstructor.construct_document / construct_object']
-BOUNDS = {'quick': 'top mapping with 2 entries of 11 kinds each (plain keys, duplicate keys, single and list merges in both orders, quoted <<, = key, '
-                   'scalar / mixed-list merge values, unhashable key) x merge source M1 with 2 entries of 4 kinds (incl. a nested merge) x a sibling '
+BOUNDS = {'quick': 'top mapping with 2 entries of 12 kinds each (plain keys, an int key that the merged mapping spells differently, duplicate keys, single and list merges in both orders, quoted <<, = key, '
+                   'scalar / mixed-list merge values, unhashable key) x merge source M1 with 2 entries of 6 kinds (incl. a nested merge and equal keys in other spellings) x a sibling '
                    'mapping sharing M1 x M1 also constructed on its own; set/omap/pairs nodes of 9 shapes',
           'thorough': 'top mapping with 3 entries'}
 OUTSIDE = 'second back-end (same constructor code fed by libyaml); merge nesting deeper than 2'
@@ -47,6 +47,8 @@ def top_entry(k, i):
         return ('mergelist-bad',)
     if k == 9:
         return ('unhashable', 40 + i)
+    if k == 11:
+        return ('ikey', '16', 70 + i)           # an int key, spelled in decimal here ...
     return ('valuekey', '=', 50 + i)
 
 
@@ -57,6 +59,10 @@ def m1_entry(k, i):
         return ('key', 'b', 110 + i)
     if k == 2:
         return ('key', 'c', 120 + i)
+    if k == 4:
+        return ('ikey', '0x10', 130 + i)        # ... and in hexadecimal in the merged mapping: equal keys, different spellings
+    if k == 5:
+        return ('ikey', '020', 140 + i)         # octal spelling of the same key
     return ('merge', ['M3'])
 
 
@@ -68,6 +74,8 @@ def ref_map(desc, env):
     for e in desc:
         if e[0] == 'key' or e[0] == 'qmerge' or e[0] == 'valuekey':
             own.append((e[1], e[2]))
+        elif e[0] == 'ikey':
+            own.append((16, e[2]))
         elif e[0] == 'merge' or e[0] == 'mergelist':
             merges.append(e[1])
         elif e[0] == 'merge-scalar' or e[0] == 'mergelist-bad' or e[0] == 'unhashable':
@@ -92,8 +100,9 @@ def ref_order(desc):
     """document order of the keys of a merge-free mapping"""
     seen = []
     for e in desc:
-        if e[1] not in seen:
-            seen.append(e[1])
+        k = 16 if e[0] == 'ikey' else e[1]
+        if k not in seen:
+            seen.append(k)
     return seen
 
 
@@ -111,6 +120,8 @@ def build_map(desc, nodes):
     for e in desc:
         if e[0] == 'key':
             pairs.append((s(e[1]), n(e[2])))
+        elif e[0] == 'ikey':
+            pairs.append((ScalarNode(T + 'int', e[1]), n(e[2])))
         elif e[0] == 'qmerge':
             pairs.append((ScalarNode(T + 'str', '<<'), n(e[2])))       # a quoted '<<' resolves to str
         elif e[0] == 'valuekey':
@@ -264,11 +275,11 @@ def jobs(tier):
     q = tier == 'quick'
     NT = 2 if q else 3
     js = []
-    for k in range(11):
+    for k in range(12):
         js.append(Job('merge/top0=%d' % k, merge,
-                      [lambda k0, k1, k2, nt, j0, j1, order, _k=k: k0 == _k and 0 <= k1 <= 10 and 0 <= k2 <= (10 if NT == 3 else 0) and nt == NT
-                       and 0 <= j0 <= 3 and 0 <= j1 <= 3 and 0 <= order <= 2],
-                      budget=200 if q else 1800, bounds='first top entry kind %d; %d top entries x 16 shapes of M1 x 3 construction orders' % (k, NT)))
+                      [lambda k0, k1, k2, nt, j0, j1, order, _k=k: k0 == _k and 0 <= k1 <= 11 and 0 <= k2 <= (11 if NT == 3 else 0) and nt == NT
+                       and 0 <= j0 <= 5 and 0 <= j1 <= 5 and 0 <= order <= 2],
+                      budget=200 if q else 1800, bounds='first top entry kind %d; %d top entries x 36 shapes of M1 (keys a, b, c, a nested merge, the int key 16 spelled 0x10 / 020) x 3 construction orders' % (k, NT)))
     js.append(Job('collections', collections, [lambda tag_i, shape: 0 <= tag_i <= 2 and 0 <= shape <= 7], budget=60, bounds='!!set/!!omap/!!pairs x 8 shapes'))
     js.append(Job('text', text_level, [lambda which: 0 <= which <= 9], budget=60, bounds='10 concrete documents through safe_load / full_load'))
     return js
